@@ -234,4 +234,67 @@ example :
         (fun t => decide (lookupKey t = lookupKey ⟨21, .dna, 0, maxHashForScaled 1000, false, .vec, 1000, [5], []⟩))).length ≠ 1 := by
   decide
 
+/-! ## T-lookup_history : look-ups after the manifest was narrowed down -/
+
+/-- "For every record of a collection, loading the record returns … the sketch the record
+    describes" — for the collection as it is NOW: whatever rows of the original manifest are left, in
+    whatever order (`intersect_manifest`, `select`, any sequence of them: the storage is untouched and
+    the manifest is replaced by rows of the old one), `sig_for_dataset i` looks at the `i`-th row that
+    is left and returns the one sketch THAT row was built from.  Nothing remembered from earlier
+    look-ups enters.  Hypotheses as for `lookup`. -/
+theorem lookup_history (md5of : Sketch → Bytes) (sigs : List Sig) (c : Collection)
+    (hc : Collection.fromSigs md5of sigs = some c)
+    (hk : ∀ sg ∈ sigs, ∀ s ∈ sg.sketches, s.mol.proteinFamily = true → s.ksize % 3 = 0)
+    (hd : ∀ sg ∈ sigs, sg.sketches.Pairwise (fun s t => lookupKey s ≠ lookupKey t))
+    (m' : List Record) (hsub : ∀ r ∈ m', r ∈ c.manifest)
+    (i : Nat) (hi : i < m'.length) :
+    ∃ sg ∈ sigs, ∃ s ∈ sg.sketches,
+      ({ c with manifest := m' } : Collection).sigForDataset i = some (.ok { sg with sketches := [s] }) ∧
+      ∃ nm, m'[i] = mkRecord md5of nm sg.filenameStr m'[i].internalLocation s := by
+  obtain ⟨j, hj, hjr⟩ := List.mem_iff_getElem.1 (hsub m'[i] (List.getElem_mem hi))
+  obtain ⟨sg, hsg, s, hs, hload, nm, hrec⟩ := lookup md5of sigs c hc hk hd j hj
+  refine ⟨sg, hsg, s, hs, ?_, nm, ?_⟩
+  · have h1 : c.sigForDataset j = c.sigFromRecord c.manifest[j] := by
+      simp [Collection.sigForDataset, List.getElem?_eq_getElem hj]
+    have h2 : ({ c with manifest := m' } : Collection).sigForDataset i = c.sigFromRecord m'[i] := by
+      simp [Collection.sigForDataset, List.getElem?_eq_getElem hi, Collection.sigFromRecord]
+    rw [h2, ← hjr, ← h1, hload]
+  · rw [← hjr]; exact hrec
+
+/-- after `Collection::intersect_manifest` … -/
+theorem lookup_after_intersect (md5of : Sketch → Bytes) (sigs : List Sig) (c : Collection)
+    (hc : Collection.fromSigs md5of sigs = some c)
+    (hk : ∀ sg ∈ sigs, ∀ s ∈ sg.sketches, s.mol.proteinFamily = true → s.ksize % 3 = 0)
+    (hd : ∀ sg ∈ sigs, sg.sketches.Pairwise (fun s t => lookupKey s ≠ lookupKey t))
+    (other : List Record) (i : Nat) (hi : i < (intersect c.manifest other).length) :
+    ∃ sg ∈ sigs, ∃ s ∈ sg.sketches,
+      ({ c with manifest := intersect c.manifest other } : Collection).sigForDataset i =
+        some (.ok { sg with sketches := [s] }) ∧
+      ∃ nm, (intersect c.manifest other)[i] =
+        mkRecord md5of nm sg.filenameStr (intersect c.manifest other)[i].internalLocation s :=
+  lookup_history md5of sigs c hc hk hd _ (fun _ hr => (List.mem_filter.1 hr).1) i hi
+
+/-- … and after `Collection::select` -/
+theorem lookup_after_select (md5of : Sketch → Bytes) (sigs : List Sig) (c : Collection)
+    (hc : Collection.fromSigs md5of sigs = some c)
+    (hk : ∀ sg ∈ sigs, ∀ s ∈ sg.sketches, s.mol.proteinFamily = true → s.ksize % 3 = 0)
+    (hd : ∀ sg ∈ sigs, sg.sketches.Pairwise (fun s t => lookupKey s ≠ lookupKey t))
+    (sel : Selection) (i : Nat) (hi : i < (c.select sel).manifest.length) :
+    ∃ sg ∈ sigs, ∃ s ∈ sg.sketches,
+      (c.select sel).sigForDataset i = some (.ok { sg with sketches := [s] }) ∧
+      ∃ nm, (c.select sel).manifest[i] =
+        mkRecord md5of nm sg.filenameStr (c.select sel).manifest[i].internalLocation s :=
+  lookup_history md5of sigs c hc hk hd _ (fun _ hr => (List.mem_filter.1 hr).1) i hi
+
+/-- non-vacuity: three one-sketch signatures; after intersecting with a manifest that holds rows 1
+    and 2 only, dataset 0 is the former row 1 and loading it returns ITS sketch (hash 7) -/
+example :
+    ((Collection.fromSigs (fun s => s.mins.map UInt8.ofNat)
+        [⟨some [97], none, [⟨21, .dna, 0, 0, false, .vec, 1000, [5], []⟩]⟩,
+         ⟨some [98], none, [⟨21, .dna, 0, 0, false, .vec, 1000, [7], []⟩]⟩,
+         ⟨some [99], none, [⟨21, .dna, 0, 0, false, .vec, 1000, [9], []⟩]⟩]).bind
+      (fun c => ({ c with manifest := intersect c.manifest (c.manifest.drop 1) } : Collection).sigForDataset 0)).map
+        (fun r => r.toOption.map (fun g => g.sketches.map (·.mins))) = some (some [[7]]) := by
+  decide
+
 end Sourmash.C12
